@@ -2,9 +2,10 @@
 # builds the harness (and the hash-seed shim) offline from files on disk only
 cd "$(dirname "$0")" || exit 1
 export CARGO_NET_OFFLINE=true
+export CARGO_TARGET_DIR="$PWD/target"
 mkdir -p target evidence replays
 (cd harness && cargo build --release --offline) || exit 1
-cargo build --release --offline --manifest-path /repo/Cargo.toml --bin sqlgrep --target-dir /verif/target/cli || exit 1
+cargo build --release --offline --manifest-path /repo/Cargo.toml --bin sqlgrep --target-dir "$PWD/target/cli" || exit 1
 if [ -f shim/seedshim.c ]; then
   gcc -O2 -shared -fPIC -o target/seedshim.so shim/seedshim.c -ldl || exit 1
 fi
